@@ -77,9 +77,39 @@ func userEventHandler(c *an.Ctx, rule string) *msgHandler {
 	if fn == nil {
 		return nil
 	}
+	// the duplicate search is either a loop calling Equals on each entry, or slices.ContainsFunc over the
+	// slot's entries with a closure that returns that Equals
+	viaContains := map[string]bool{}
+	an.Instrs(fn, func(in ssa.Instruction) {
+		call, ok := in.(*ssa.Call)
+		if !ok || len(call.Call.Args) != 2 {
+			return
+		}
+		callee := an.StaticCallee(&call.Call)
+		if callee == nil || !strings.HasPrefix(an.CalleeName(callee), "slices.ContainsFunc") {
+			return
+		}
+		mc, ok := call.Call.Args[1].(*ssa.MakeClosure)
+		if !ok || !strings.HasSuffix(an.Path(call.Call.Args[0]), ".Events") {
+			return
+		}
+		cf, _ := mc.Fn.(*ssa.Function)
+		if cf == nil {
+			return
+		}
+		all := len(an.Returns(cf)) > 0
+		for _, r := range an.Returns(cf) {
+			if v := an.ResultValues(r); len(v) != 1 || !strings.HasPrefix(an.Path(v[0]), "(*userEvent).Equals(") {
+				all = false
+			}
+		}
+		if all {
+			viaContains[an.Path(call)] = true
+		}
+	})
 	return &msgHandler{fn: fn, clock: "eventClock", buf: "eventBuffer", minTime: "eventMinTime", list: "Events", elem: "$1.Name", sentType: "UserEvent",
 		dupFact: func(f an.Cmp) bool {
-			return strings.HasPrefix(f.L, "(*userEvent).Equals(") && f.Op == "==" && f.R == "c:true"
+			return (strings.HasPrefix(f.L, "(*userEvent).Equals(") || viaContains[f.L]) && f.Op == "==" && f.R == "c:true"
 		}}
 }
 
@@ -90,7 +120,11 @@ func queryHandler(c *an.Ctx, rule string) *msgHandler {
 	}
 	return &msgHandler{fn: fn, clock: "queryClock", buf: "queryBuffer", minTime: "queryMinTime", list: "QueryIDs", elem: "$1.ID", sentType: "Query",
 		dupFact: func(f an.Cmp) bool {
-			return strings.HasPrefix(f.L, "slices.Contains") && strings.HasSuffix(f.L, ".QueryIDs,$1.ID)") && f.Op == "==" && f.R == "c:true"
+			if strings.HasPrefix(f.L, "slices.Contains") && strings.HasSuffix(f.L, ".QueryIDs,$1.ID)") && f.Op == "==" && f.R == "c:true" {
+				return true
+			}
+			// or a hand-written scan comparing each recorded id with the query's
+			return strings.Contains(f.L, ".QueryIDs[") && strings.HasSuffix(f.L, "]") && f.Op == "==" && f.R == "$1.ID"
 		}}
 }
 
